@@ -165,6 +165,17 @@ void *memset(void *dst, int c, size_t n)
 }
 #endif
 
+/* ---- time(): contract form -------------------------------------------------
+ * goto-instrument 6.11 aborts (goto_inline_class.cpp:104) when a function that carries loop
+ * contracts is a CALLEE of the enforced function and contains REQUIRE_RVAL, whose __DEBUG() has
+ * the nested call fprintf(..., (unsigned long) time(NULL), ...) and time() has a body.  Units in
+ * that situation define VERIF_REAL_STDIO (env.h then leaves fprintf/printf/fflush/time without
+ * bodies = arbitrary return values, no side effects) and use `replace: time` with this contract
+ * (same meaning as env.h's stub.  ASSUMES: the clock is not before the epoch). */
+#ifdef VERIF_REAL_STDIO
+time_t time(time_t *t) __CPROVER_assigns(t != NULL: *t) __CPROVER_ensures(__CPROVER_return_value >= 0);
+#endif
+
 #ifndef VA_NO_REBIND
 # undef SPIF_OBJ_COMP
 # define SPIF_OBJ_COMP(o1, o2) va_comp((spif_obj_t) (o1), (spif_obj_t) (o2))
